@@ -528,6 +528,7 @@ var (
 	rangeEndsMore  = []string{"-10", "-0.5", "00", "1.0", "9", "100", "2.50", "aa", "b0", "0x", "1e", "é"}
 	rangeTokens    = []string{
 		"-10", "-2", "-1", "-0.5", "-0", "0", "00", "0.0", "0.5", "1", "1.0", "01", "1.5", "2", "2.5", "9", "10", "1e1", "10.0", "11", "100", "1e2", "12345678901234567890",
+		"+1", "+1.5", "+0", "+10", "+1e1", ".5", "-.5", "+.5", "2.", "1E1", // explicit plus sign, bare leading/trailing dot, capital exponent: decimal numbers too
 		"", "-", "1a", "a", "a1", "aa", "ab", "b", "b0", "ba", "1e", "0x", "é", "z", " 1", "1 ", "--1", "1-1", "1.5.1",
 	}
 )
